@@ -3,16 +3,16 @@ use super::*;
 use bevy::ecs::world::unsafe_world_cell::UnsafeWorldCell;
 
 /// Observable trace of one run: the body, the cleanup, and the application of the body's deferred command each append a mark.
-#[derive(Resource, Default)] struct Trace { marks: [u8; 8], n: usize }
+#[derive(Resource, Default)] pub(crate) struct Trace { pub(crate) marks: [u8; 8], pub(crate) n: usize }
 impl Trace { fn push(&mut self, m: u8) { self.marks[self.n] = m; self.n += 1; } }
-const BODY: u8 = 1; const CLEANUP: u8 = 2; const DEFERRED: u8 = 3; const INIT: u8 = 4;
+pub(crate) const BODY: u8 = 1; pub(crate) const CLEANUP: u8 = 2; pub(crate) const DEFERRED: u8 = 3; pub(crate) const INIT: u8 = 4;
 fn mark(world: &mut World, m: u8) { world.resource_mut::<Trace>().push(m); }
 fn cleanup_fn(world: &mut World) { mark(world, CLEANUP); }
 
 /// A stub system (assumed `System` contract: run = run_unsafe + apply_deferred; exclusive run = body + flush) whose body
 /// marks BODY, counts its own runs in `runs` (its private state), and defers `queued` probe commands that mark DEFERRED
 /// when applied.  `exclusive` selects the code path of run_initialized_system.
-struct Probe { exclusive: bool, queued: u8, runs: u32, inits: u32, pending: u8 }
+pub(crate) struct Probe { pub(crate) exclusive: bool, pub(crate) queued: u8, pub(crate) runs: u32, pub(crate) inits: u32, pub(crate) pending: u8 }
 impl Probe {
     fn body(&mut self, world: &mut World) -> u32 {
         self.runs += 1;
@@ -52,7 +52,7 @@ impl System for Probe {
     fn update_archetype_component_access(&mut self, _: UnsafeWorldCell) {}
 }
 
-fn assert_trace(world: &World, expect: &[u8], what: &'static str) {
+pub(crate) fn assert_trace(world: &World, expect: &[u8], what: &'static str) {
     let t = world.resource::<Trace>();
     assert!(t.n == expect.len(), "{}", what);
     let mut i = 0;
